@@ -9,7 +9,7 @@ from moPepGen.gtf import GtfIO
 from moPepGen.gtf.GTFPointer import (GenePointer, GenePointerDict, TranscriptPointer,
                                      TranscriptPointerDict)
 from mpgverif.harness.annobuild import feat
-from mpgverif.hlib import OK, SKIP, cond, patched
+from mpgverif.hlib import OK, SKIP, concretize, cond, patched
 
 USE_SHIM = True
 USE_TOKENS = True
@@ -218,17 +218,18 @@ def _layouts(maxlen):
     return out
 
 
-LAYOUTS = _layouts(4)
+LAYOUTS = sorted(_layouts(4), key=len)
 N_LAYOUTS = 38
 assert len(LAYOUTS) == N_LAYOUTS, len(LAYOUTS)
+assert all(len(l) <= 3 for l in LAYOUTS[:13]) and len(LAYOUTS[13]) == 4
 
 
 def _gtf_pointers(shape, lens, ncomment):
-    layout = LAYOUTS[shape]
+    layout = LAYOUTS[concretize(shape, 0, len(LAYOUTS) - 1)]
     n = len(layout)
-    for i in range(n + ncomment):
-        if lens[i] < 1:
-            return SKIP
+    # `if cur_gene_pointer:` in the implementation takes len(pointer) through the C slot, which needs a
+    # concrete int: byte lengths are therefore enumerated from a small domain instead of left unbounded
+    lens = [concretize(lens[i], 1, 3) for i in range(n + ncomment)]
     lines = [_Line(lens[i], None) for i in range(ncomment)]
     gene_no = -1
     recs = []
@@ -277,15 +278,32 @@ CODES_P = {-1: 'two pointers for one gene/transcript', -2: 'set of indexed entit
            -4: "gene pointer's transcript list differs from the transcripts following the gene line"}
 
 
-@cond('C11', bounds='GTF of <= 1 comment line + every layout of <= 4 record lines (gene lines, lines of '
-      '<= 2 transcripts per gene; 38 layouts), UNBOUNDED symbolic byte lengths', codes=CODES_P,
+@cond('C11', bounds='GTF of <= 1 comment line + every layout of <= 3 record lines (gene lines, lines of '
+      '<= 2 transcripts per gene; 13 layouts), byte lengths 1..3 per line', codes=CODES_P,
       tokens=True, encodes=['moPepGen.gtf.GTFPointer.iterate_pointer'],
       stubs=['GtfIO.line_to_seq_feature -> pre-parsed record of the fake line'], timeout=400)
+def c11_gtf_iterate_pointer3(shape: int, lens: List[int], ncomment: int) -> int:
+    """
+    pre: 0 <= shape < 13
+    pre: 0 <= ncomment <= 1
+    pre: len(lens) == 4
+    pre: all(1 <= x <= 3 for x in lens)
+    post: _ >= 0
+    """
+    return _gtf_pointers(shape, lens, ncomment)
+
+
+@cond('C11', bounds='GTF of <= 1 comment line + every layout of <= 4 record lines (gene lines, lines of '
+      '<= 2 transcripts per gene; 38 layouts), byte lengths 1..3 per line', codes=CODES_P,
+      tokens=True, encodes=['moPepGen.gtf.GTFPointer.iterate_pointer'],
+      stubs=['GtfIO.line_to_seq_feature -> pre-parsed record of the fake line'], timeout=2400,
+      tiers=('thorough',))
 def c11_gtf_iterate_pointer(shape: int, lens: List[int], ncomment: int) -> int:
     """
     pre: 0 <= shape < 38
     pre: 0 <= ncomment <= 1
     pre: len(lens) == 5
+    pre: all(1 <= x <= 3 for x in lens)
     post: _ >= 0
     """
     return _gtf_pointers(shape, lens, ncomment)
